@@ -37,6 +37,10 @@ Definition attribute (pinned : quirks) (corr : bool) (prop_with : quirks -> bool
   else if get_q pinned 1 && prop_with (set_q pinned 1 false) then 1%N
   else if get_q pinned 2 && prop_with (set_q pinned 2 false) then 2%N
   else if get_q pinned 3 && prop_with (set_q pinned 3 false) then 3%N
+  (* two open findings interacting on one case (e.g. an unclamped NewSem followed by a grow
+     to maxCapacity): neither flag alone explains the failure, both together do; attributed to
+     the first of the two *)
+  else if get_q pinned 1 && get_q pinned 2 && prop_with (set_q (set_q pinned 1 false) 2 false) then 1%N
   else 0%N.
 
 (** * group sem *)
